@@ -368,7 +368,9 @@ def random_shard(ctx, count):
         except ValueError as e:
             # the instance refuses tour-length bounds above 10^15: the
             # generator left the accepted range, nothing was observed
-            if "upper_bound=" in str(e) and "is invalid" in str(e):
+            # (judged on the matrix - sum of the row maxima beyond 10^15 -,
+            # not on the message's wording)
+            if sum(max(row) for row in matrix) > 10 ** 15:
                 ctx.count("generator_rejected_by_ctor")
                 continue
             raise
